@@ -394,7 +394,8 @@ def ungroup(expr: ParserElement) -> ParserElement:
     """Helper to undo pyparsing's default grouping of And expressions,
     even if all but one are non-empty.
     """
-    return TokenConverter(expr).add_parse_action(lambda t: t[0])
+    # an expression that matched without producing any token has nothing to ungroup
+    return TokenConverter(expr).add_parse_action(lambda t: t[0] if len(t) > 0 else None)
 
 
 def locatedExpr(expr: ParserElement) -> ParserElement:
